@@ -30,6 +30,7 @@ type Program struct {
 	pkgs    map[string]*ssa.Package
 	mu      sync.Mutex
 	infos   map[*ssa.Function]*fnInfo
+	merges  map[*ssa.BasicBlock]*mergeInfo
 	modPath string // module path of the code under test
 	stubs   map[string]*ssa.Function // callee full name -> harness stub
 	initOK  func(path string) bool
@@ -97,6 +98,7 @@ type frame struct {
 	curInstr  ssa.Instruction
 	status    int
 	count     *int
+	mergedPhis bool
 }
 
 type goPanic struct {
@@ -118,6 +120,7 @@ type ExecStats struct {
 	Paths   int
 	Forks   int
 	Regions int
+	Merges  int
 }
 
 type Exec struct {
@@ -175,6 +178,7 @@ type Exec struct {
 	obs         []obsRec
 	arrayMode   bool
 	obligation  bool
+	noMerge     bool
 	portfolioWins map[string]int
 	pcSet       map[*Term]bool
 	thWG        sync.WaitGroup
@@ -438,6 +442,11 @@ func (e *Exec) runBlocks(fr *frame) {
 		}
 	instrs:
 		for _, in := range blk.Instrs {
+			if fr.mergedPhis {
+				if _, isPhi := in.(*ssa.Phi); !isPhi {
+					fr.mergedPhis = false
+				}
+			}
 			fr.curInstr = in
 			switch e.visit(fr, in) {
 			case kReturn:
@@ -517,6 +526,11 @@ func (e *Exec) visit(fr *frame, in ssa.Instruction) int {
 		e.store(e.get(fr, in.Addr).(Ptr), in.Val.Type(), e.get(fr, in.Val))
 	case *ssa.If:
 		c := e.boolTerm(e.get(fr, in.Cond))
+		if !c.IsConst() && !e.noMerge {
+			if _, fixed := e.evalFixed(c); !fixed && e.tryMerge(fr, c) {
+				return kJump
+			}
+		}
 		succ := 1
 		if e.branch(c) {
 			succ = 0
@@ -541,8 +555,8 @@ func (e *Exec) visit(fr *frame, in ssa.Instruction) int {
 		e.set(fr, in, Ptr{o: e.allocZero(et, "alloc "+in.Comment)})
 	case *ssa.MakeSlice:
 		et := in.Type().Underlying().(*types.Slice).Elem()
-		ln := e.intTerm(e.get(fr, in.Len))
-		cp := e.intTerm(e.get(fr, in.Cap))
+		ln := e.optInt(fr, in.Len, 0)
+		cp := e.optInt(fr, in.Cap, 0)
 		e.set(fr, in, e.makeSlice(et, ln, cp))
 	case *ssa.MakeMap:
 		mt := in.Type().Underlying().(*types.Map)
@@ -588,6 +602,9 @@ func (e *Exec) visit(fr *frame, in ssa.Instruction) int {
 		}
 		e.set(fr, in, &Closure{fn: in.Fn.(*ssa.Function), env: env})
 	case *ssa.Phi:
+		if fr.mergedPhis {
+			break
+		}
 		for i, pred := range in.Block().Preds {
 			if fr.prev == pred {
 				e.set(fr, in, e.get(fr, in.Edges[i]))
